@@ -19,7 +19,7 @@ import warnings
 import numpy as np
 
 from harness.core import PropertyCheck
-from harness.util import close, errname, fr, frs, parse_rats
+from harness.util import close, errname, fr, frac, frs, parse_rats
 
 SPACES = ["scanner", "aligned", "talairach", "mni", "unknown"]
 CODES = {"unknown": 0, "scanner": 1, "aligned": 2, "talairach": 3, "mni": 4}
@@ -73,33 +73,10 @@ def _spatial(rng, space, shape3):
     return A, t
 
 
-def make_image_case(rng, malformed=None, n=None):
-    n = n if n is not None else rng.choice([3, 4, 4, 5, 5, 6, 7])
-    k = n - 3
-    space = rng.choice(SPACES)
-    strict = rng.random() < 0.5
-    shape3 = [rng.choice([1, 2, 2, 3]) for _ in range(3)]
-    A, t3 = _spatial(rng, space, shape3)
-    tl = rng.choice([None, "t", "t", "hz", "ppm", "rads"]) if k else None
-    if k == 4 and malformed != "toomany":
-        tl = tl or "t"           # seven dimensions need a time-like axis
-    if k == 4 and malformed == "toomany":
-        tl = None
-    tpos = rng.randrange(k) if tl else None
-    scales, lens, offs = [], [], []
-    pool = [0.5, 1.0, 2.0, 3.0, 1.5, 4.0, 2.5]
-    rng.shuffle(pool)
-    for j in range(k):
-        if j == tpos:
-            scales.append(rng.choice([0.0, 0.0, 2.0, 2.5, 1.0, 0.75]))
-            lens.append(rng.choice([1, 2, 3]))
-            offs.append(rng.choice([0.0, 0.0, 14.0, -3.5, 0.25]) if tl == "t" else 0.0)
-        else:
-            scales.append(pool[j])
-            lens.append(rng.choice([1, 2, 2, 3]) if k <= 2 else rng.choice([1, 2]))
-            offs.append(0.0)
-    # names
-    mode = rng.choice(["both", "both", "alias", "in", "out"]) if tl else None
+def _name_design(rng, d, mode=None):
+    """(re)assign axis names to the structural fields of a design"""
+    k, tl, tpos, space, strict = d["k"], d["tl"], d["tpos"], d["space"], d["strict"]
+    mode = mode or (rng.choice(["both", "both", "alias", "in", "out"]) if tl else None)
     plain_in = ["l", "m", "n", "o", "p"]
     plain_out = rng.choice([["u", "v", "w", "q", "r2"], ["a", "b", "c", "d", "e"], ["l", "m", "n", "o", "p"]])
     inn = ["i", "j", "k"] + plain_in[:k]
@@ -120,6 +97,120 @@ def make_image_case(rng, malformed=None, n=None):
             inn[3 + tpos] = ni
         if no:
             outn[3 + tpos] = no
+    d.update(inn=inn, outn=outn, named_space=named_space, plain_out=plain_out, mode=mode)
+    return d
+
+
+def make_design(rng, n=None, malformed=None, force=None):
+    """structural description of an image NIfTI can express: dimensions, space, spatial affine, time-like axis
+    (kind, position among the non-spatial axes, TR, origin), scalings of the other axes; then names"""
+    force = force or {}
+    n = n if n is not None else rng.choice([3, 4, 4, 5, 5, 6, 7])
+    k = n - 3
+    space = force.get("space") or rng.choice(SPACES)
+    strict = force["strict"] if "strict" in force else rng.random() < 0.5
+    shape3 = [rng.choice([1, 2, 2, 3]) for _ in range(3)]
+    A, t3 = _spatial(rng, space, shape3)
+    tl = rng.choice([None, "t", "t", "hz", "ppm", "rads"]) if k else None
+    if "tl" in force:
+        tl = force["tl"] if k else None
+    if k == 4 and malformed != "toomany":
+        tl = tl or "t"           # seven dimensions need a time-like axis
+    if k == 4 and malformed == "toomany":
+        tl = None
+    tpos = rng.randrange(k) if tl else None
+    if tl and "tpos" in force:
+        tpos = force["tpos"]
+    scales, lens, offs = [], [], []
+    pool = [0.5, 1.0, 2.0, 3.0, 1.5, 4.0, 2.5]
+    rng.shuffle(pool)
+    for j in range(k):
+        if j == tpos:
+            sc = rng.choice([0.0, 0.0, 2.0, 2.5, 1.0, 0.75])
+            if "zero_tr" in force:
+                sc = 0.0 if force["zero_tr"] else rng.choice([2.0, 2.5, 1.0, 0.75])
+            scales.append(sc)
+            lens.append(rng.choice([1, 2, 3]))
+            offs.append(rng.choice([0.0, 0.0, 14.0, -3.5, 0.25]) if tl == "t" else 0.0)
+        else:
+            scales.append(pool[j])
+            lens.append(rng.choice([1, 2, 2, 3]) if k <= 2 else rng.choice([1, 2]))
+            offs.append(0.0)
+    d = {"n": n, "k": k, "space": space, "strict": strict, "shape3": shape3, "A": A.tolist(), "t3": t3.tolist(),
+         "tl": tl, "tpos": tpos, "scales": scales, "lens": lens, "offs": offs}
+    return _name_design(rng, d, force.get("mode"))
+
+
+MUTATIONS = ["origin0", "origin0", "origin", "tr", "droptime", "addtime", "retype", "space", "affine", "to3d",
+             "addextra", "dropextra", "resize", "rename", "perm"]
+
+
+def mutate_design(rng, d0):
+    """an edit of an image between a load and the next save: time origin reset / changed, TR changed, time
+    axis dropped / added / retyped, space renamed, coordmap (spatial affine) reset, axes added / dropped /
+    resized / renamed / permuted.  Returns (edit name, new design)."""
+    import copy
+    for _ in range(20):
+        d = copy.deepcopy(d0)
+        m = rng.choice(MUTATIONS)
+        k, tl, tpos = d["k"], d["tl"], d["tpos"]
+        if m == "origin0" and tl == "t" and d["offs"][tpos] != 0:
+            d["offs"][tpos] = 0.0
+        elif m == "origin" and tl == "t":
+            d["offs"][tpos] = rng.choice([x for x in [0.0, 14.0, -3.5, 0.25, 42.0, 7.5] if x != d["offs"][tpos]])
+        elif m == "tr" and tl:
+            d["scales"][tpos] = rng.choice([x for x in [0.0, 2.0, 2.5, 1.0, 0.75, 3.5] if x != d["scales"][tpos]])
+        elif m == "droptime" and tl:
+            for key in ("scales", "lens", "offs"):
+                d[key].pop(tpos)
+            d.update(k=k - 1, n=d["n"] - 1, tl=None, tpos=None)
+        elif m == "addtime" and tl is None and k < 4:
+            pos = rng.randrange(k + 1)
+            kind = rng.choice(["t", "t", "hz", "ppm", "rads"])
+            d["scales"].insert(pos, rng.choice([0.0, 2.0, 2.5, 0.75]))
+            d["lens"].insert(pos, rng.choice([1, 2, 3]))
+            d["offs"].insert(pos, rng.choice([0.0, 0.0, 14.0, -3.5]) if kind == "t" else 0.0)
+            d.update(k=k + 1, n=d["n"] + 1, tl=kind, tpos=pos)
+        elif m == "retype" and tl:
+            d["tl"] = rng.choice([x for x in ["t", "hz", "ppm", "rads"] if x != tl])
+            if d["tl"] != "t":
+                d["offs"][tpos] = 0.0
+        elif m == "space":
+            d["space"] = rng.choice([x for x in SPACES if x != d["space"]])
+            A, t3 = _spatial(rng, d["space"], d["shape3"])
+            d["A"], d["t3"] = A.tolist(), t3.tolist()
+        elif m in ("affine", "resize"):
+            if m == "resize":
+                d["shape3"] = [rng.choice([1, 2, 2, 3]) for _ in range(3)]
+                d["lens"] = [rng.choice([1, 2]) for _ in range(k)]
+            A, t3 = _spatial(rng, d["space"], d["shape3"])
+            d["A"], d["t3"] = A.tolist(), t3.tolist()
+        elif m == "to3d" and k:
+            d.update(k=0, n=3, tl=None, tpos=None, scales=[], lens=[], offs=[])
+        elif m == "addextra" and (k < 3 or (k == 3 and tl)):
+            d["scales"].append(rng.choice([0.5, 1.5, 3.0, 6.0]))
+            d["lens"].append(rng.choice([1, 2]))
+            d["offs"].append(0.0)
+            d.update(k=k + 1, n=d["n"] + 1)
+        elif m == "dropextra" and k > (1 if tl else 0):
+            j = rng.choice([x for x in range(k) if x != tpos])
+            for key in ("scales", "lens", "offs"):
+                d[key].pop(j)
+            d.update(k=k - 1, n=d["n"] - 1, tpos=(tpos - 1 if tl and tpos > j else tpos))
+        elif m in ("rename", "perm"):
+            d["strict"] = rng.random() < 0.5
+        else:
+            continue
+        return m, _name_design(rng, d)
+    return "rename", _name_design(rng, copy.deepcopy(d0))
+
+
+def make_image_case(rng, malformed=None, n=None, design=None, fix0=None):
+    d = design or make_design(rng, n, malformed)
+    n, k, space, strict, shape3 = d["n"], d["k"], d["space"], d["strict"], d["shape3"]
+    A, t3 = np.array(d["A"]), np.array(d["t3"])
+    tl, tpos, scales, lens, offs = d["tl"], d["tpos"], list(d["scales"]), d["lens"], d["offs"]
+    inn, outn, named_space, plain_out = list(d["inn"]), list(d["outn"]), d["named_space"], d["plain_out"]
     aff = np.eye(n + 1)
     aff[:3, :3] = A
     aff[:3, -1] = t3
@@ -197,6 +288,9 @@ def make_image_case(rng, malformed=None, n=None):
         expect = "any"; note.append("two zero scalings: outside the quantifier")
     elif malformed == "nofix0" and k:
         expect = "any"
+    use_fix0 = (malformed != "nofix0") if fix0 is None else fix0
+    if not use_fix0 and expect == "ok" and tl and scales[tpos] == 0:
+        expect = "any"      # without the zero row / column repair a TR of 0 cannot be matched to its axis
     # ---- permutations of output coordinates among non-spatial axes, then of everything ----
     rows = list(range(n))
     if k >= 2 and rng.random() < 0.3:
@@ -210,7 +304,7 @@ def make_image_case(rng, malformed=None, n=None):
     outn2 = [outn[r] for r in rows]
     inn2 = [inn[c] for c in pin]
     shape2 = [shape[c] for c in pin]
-    if space == "unknown" and expect == "ok":
+    if space == "unknown" and expect in ("ok", "ok-approx"):
         # the 'unknown' world only holds the header's base affine (voxel axes in x, y, z order).  When the
         # coordmap already has an xyz affine, as_xyz_image does not transpose and a permuted-diagonal
         # affine is (correctly) refused; either outcome is legal for the property.
@@ -232,7 +326,7 @@ def make_image_case(rng, malformed=None, n=None):
     fmts = []
     if expect == "ok" and rng.random() < 0.45:
         fmts = rng.sample(FORMATS, rng.choice([1, 2, 4]))
-    return {"kind": "img", "strict": strict, "fix0": malformed != "nofix0", "in": inn2, "out": outn2,
+    return {"kind": "img", "strict": strict, "fix0": use_fix0, "in": inn2, "out": outn2,
             "aff": aff2.tolist(), "shape": shape2, "dtype": dtype, "formats": fmts, "spec": spec,
             "malformed": malformed}
 
@@ -266,7 +360,24 @@ def make_ftl_case(rng):
     for j in range(k):
         if rng.random() < 0.3:
             aff[3 + j, -1] = rng.choice([14.0, -2.0])
-    return {"kind": "ftl", "fix0": rng.random() < 0.8, "in": inn, "out": outn, "aff": aff.tolist(),
+    fix0 = rng.random() < 0.8
+    if k >= 2 and rng.random() < 0.12:
+        # a name on both sides whose input axis drives nothing while its output axis is driven by another input
+        nm = rng.choice(pool)
+        j, r = rng.randrange(k), rng.randrange(k)
+        cands = [c for c in range(k) if c != j]
+        cc = rng.choice(cands)
+        inn = ["i", "j", "k"] + plain_i[:k]; outn = space_names("mni") + plain_o[:k]
+        inn[3 + j] = nm; outn[3 + r] = nm
+        blk = np.zeros((k, k)); blk[r, cc] = rng.choice([1.0, 2.0, -1.5])
+        for q in range(k):
+            if q not in (j, cc) and rng.random() < 0.5:
+                rows = [x for x in range(k) if x != r and not blk[x].any()]
+                if rows:
+                    blk[rng.choice(rows), q] = 1.5
+        aff[3:n, 3:n] = blk
+        fix0 = rng.random() < 0.3
+    return {"kind": "ftl", "fix0": fix0, "in": inn, "out": outn, "aff": aff.tolist(),
             "shape": [2] * n}
 
 
@@ -282,6 +393,170 @@ def make_raw_case(rng):
             "pixdim": [rng.choice([0.0, 1.0, 2.0, 2.5, 0.5, 3.0]) for _ in range(max(0, nd - 3))],
             "toffset": rng.choice([0.0, 0.0, 42.0, -1.5]),
             "diminfo": rng.choice([[None, None, None]] * 3 + [[0, 1, 2], [2, 0, 1], [1, None, 0], [None, 2, None]])}
+
+
+HDR_CLASSES = ["nifti1", "nifti1", "nifti1", "pair", "nifti2", "spm2", "spm99", "analyze"]
+SEED_DTYPES = ["u1", "i2", "i4", "f4", "f8", "i1", "u2"]
+VIAS = ["mem", "mem", ".nii", ".nii.gz", ".hdr", ".img", ".hdr.gz", ".img.gz"]
+
+
+def make_seed_header(rng):
+    """an arbitrary header from a previous life of the image: every geometry-bearing field away from its
+    default (sform/qform + codes, pixdim incl. pixdim[4:8] beyond the dimensions, toffset, xyzt_units, dim_info),
+    scaling, intent, descrip, slice timing, an extension, any storage dtype, any header class"""
+    nd = rng.choice([3, 4, 4, 5, 6, 7])
+    shape = [rng.choice([1, 2, 3, 5]) for _ in range(nd)]
+    A, t = _spatial(rng, "mni", shape[:3])
+    A2, t2 = _spatial(rng, "mni", shape[:3])
+    return {"cls": rng.choice(HDR_CLASSES), "shape": shape, "dtype": rng.choice(SEED_DTYPES),
+            "A": A.tolist(), "t": t.tolist(), "A2": A2.tolist(), "t2": t2.tolist(),
+            "sform": rng.choice([0, 1, 2, 3, 4]), "qform": rng.choice([0, 1, 2, 3, 4]),
+            "sunits": rng.choice(["unknown", "meter", "mm", "micron"]),
+            "tunits": rng.choice(["unknown", "sec", "sec", "msec", "usec", "hz", "ppm", "rads"]),
+            "diminfo": rng.choice([[None, None, None], [0, 1, 2], [2, 0, 1], [1, None, 0], [None, 2, None]]),
+            "toffset": rng.choice([42.0, 42.0, -1.5, 0.25, 0.0, 1000.0]),
+            "pixdim": [rng.choice([0.0, 1.0, 2.0, 2.5, 0.5, 3.0, 7.0]) for _ in range(4)],
+            "slope": rng.choice([None, 2.0, 0.5]), "inter": rng.choice([None, 3.0, -1.0]),
+            "intent": rng.choice([None, ["t test", [10.0], "tmap"], ["z score", [], ""], ["vector", [], "vec"]]),
+            "descrip": rng.choice(["", "previous life", "x" * 40]),
+            "slice": rng.choice([None, [0, 1, 1, 0.5], [1, 2, 3, 0.125]]),
+            "cal": rng.choice([None, [7.0, -1.0]]), "ext": rng.random() < 0.3,
+            "magic_pair": rng.random() < 0.1}
+
+
+def _effective_dtype(dd, cur):
+    return dd if dd is not None else (cur if cur is not None else "f8")
+
+
+def make_hist_case(rng, tier):
+    """a history on one image object: [seed header] → save (memory or file) → load → edit → save → load …"""
+    seed = make_seed_header(rng) if rng.random() < 0.7 else None
+    nst = rng.choice([1, 2, 2, 3, 3, 4] if seed else [2, 2, 3, 3, 4])
+    stages, d, cur = [], None, (seed["dtype"] if seed else None)
+    for si in range(nst):
+        last = si == nst - 1
+        if d is None or rng.random() < 0.3:
+            edit, d = "new", make_design(rng)
+        else:
+            edit, d = mutate_design(rng, d)
+        via = rng.choice(VIAS)
+        malformed = None
+        if last and rng.random() < 0.15:
+            malformed = rng.choice(["space-coupled", "nonspace-coupled", "world", "contradict", "unknown-incompatible"])
+            via = "mem"
+        dsg = d if malformed is None else make_design(rng, rng.choice([4, 5, 5, 6]), malformed)
+        # `save` calls nipy2nifti with its defaults (non-strict, fix0)
+        c = make_image_case(rng, malformed, design=dsg, fix0=(True if via != "mem" else rng.random() < 0.85))
+        c.pop("kind"); c.pop("formats")
+        size = int(np.prod(c["shape"]))
+        if via == "mem":
+            dd = rng.choice([None, None, None] + DTYPES)
+            dtype_from = None
+        else:
+            c["strict"] = False
+            dtype_from = rng.choice(["data", "data", "header", "header"] + DTYPES)
+            dd = {"data": "f8", "header": None}.get(dtype_from, dtype_from)
+        eff = _effective_dtype(dd, cur)
+        lim = {"u1": 250, "i1": 120}.get(eff)
+        if (lim and size > lim) or (via in (".img", ".img.gz") and eff not in DTYPES):
+            dd = rng.choice(["i2", "f4", "f8"])
+            if via != "mem":
+                dtype_from = dd
+            eff = dd
+        if si == 0 and seed is not None and malformed is None and rng.random() < 0.3:
+            # the seed header already has the shape of the image about to be written (nibabel then skips
+            # set_data_shape and the unused pixdim tail is not reset)
+            k_, tp = d["k"], d["tpos"]
+            rest = [d["lens"][j] for j in range(k_) if j != tp]
+            seed["shape"] = d["shape3"] + ([d["lens"][tp]] + rest if d["tl"] else ([1] + rest if k_ else []))
+        c.update(via=via, dd=dd, dtype_from=dtype_from, edit=edit, eff_dtype=eff,
+                 resave=(via not in (".img", ".img.gz") and malformed is None and rng.random() < 0.5))
+        stages.append(c)
+        cur = eff
+    return {"kind": "hist", "seed": seed, "stages": stages}
+
+
+def make_grid_cases(rng, tier):
+    """every combination of strict, fix0, 3..7 dimensions, time-like kind (t, hz, ppm, rads or none), its position
+    among the non-spatial axes, zero / non-zero TR and the side(s) it is named on"""
+    combos = []
+    for strict in (False, True):
+        for fix0 in (False, True):
+            combos.append((strict, fix0, 3, None, None, False, None))
+            for k in (1, 2, 3, 4):
+                if k < 4:
+                    combos.append((strict, fix0, 3 + k, None, None, False, None))
+                for tl in ("t", "hz", "ppm", "rads"):
+                    for tpos in range(k):
+                        for zero in (False, True):
+                            for mode in ("both", "alias", "in", "out"):
+                                combos.append((strict, fix0, 3 + k, tl, tpos, zero, mode))
+    if tier == "quick":
+        combos = rng.sample(combos, 320)
+    out = []
+    for strict, fix0, n, tl, tpos, zero, mode in combos:
+        force = {"strict": strict, "tl": tl, "zero_tr": zero}
+        if tl:
+            force.update(tpos=tpos, mode=mode)
+        c = make_image_case(rng, design=make_design(rng, n, force=force), fix0=fix0)
+        c["grid"] = True
+        out.append(c)
+    return out
+
+
+def make_misc_case(rng):
+    kind = rng.choice(["ftype", "ftype", "f32", "worldcs", "knownspace", "knownspace", "mkxyz", "iodtype", "defhdr",
+                       "affable", "affable", "asimage", "xyzspace"])
+    if kind == "xyzspace":
+        return {"kind": "misc", "what": kind, "a": rng.choice(SPACES + ["hijo", "foo"]),
+                "b": rng.choice(SPACES + ["hijo", "foo"]), "extras": rng.choice(["", "t", "tuvw", "ab"]),
+                "ndim": rng.choice([3, 4, 5])}
+    if kind == "ftype":
+        base = rng.choice(["im", "a.b", ".hidden", "dir.x/im", "dir/sub.d/x", "", "x.", "..y", "im.nii", "t.tar"])
+        ext = rng.choice(["", ".nii", ".hdr", ".img", ".mnc", ".txt", ".NII", ".nii.gz", ".hdr.gz", ".img.gz",
+                          ".nii.bz2", ".img.bz2", ".gz", ".bz2", ".mnc.gz", ".hdr.bz2", ".nii.zip", ".gz.gz"])
+        return {"kind": "misc", "what": kind, "name": base + ext}
+    if kind == "f32":
+        vals = []
+        for _ in range(8):
+            m = rng.choice([rng.random(), rng.randrange(1, 2 ** 26) * 1.0, rng.choice([1 / 3, 0.1, 2.5, 1e-5, 1e-8])])
+            vals.append(m * 2.0 ** rng.choice([-160, -140, -127, -30, -3, 0, 1, 10, 40, 100]) * rng.choice([1, -1]))
+        vals.append((2 ** 24 + 1) * 2.0 ** rng.randrange(-20, 20))    # a tie
+        vals.append((2 ** 24 + 3) * 2.0 ** rng.randrange(-20, 20))
+        return {"kind": "misc", "what": kind, "vals": vals}
+    if kind == "worldcs":
+        return {"kind": "misc", "what": kind, "world": rng.choice(SPACES + ["foo", "MNI", ""]),
+                "ndim": rng.choice([0, 1, 2, 3, 4, 5, 6, 7, 8, 9])}
+    if kind == "knownspace":
+        names = []
+        for sp in rng.sample(SPACES + ["foo"], rng.choice([1, 1, 2])):
+            names += space_names(sp)
+        names += rng.sample(["t", "u", "x", "y", "z", "time"], rng.choice([0, 1, 2]))
+        if rng.random() < 0.4 and names:
+            names.pop(rng.randrange(len(names)))
+        rng.shuffle(names)
+        return {"kind": "misc", "what": kind, "names": names or ["q"]}
+    if kind == "mkxyz":
+        nd = rng.choice([2, 3, 4, 5, 6, 7, 8, 9])
+        shape = [rng.choice([1, 2]) for _ in range(nd)]
+        A, t = _spatial(rng, "mni", (shape + [1, 1, 1])[:3])
+        zmode = rng.choice(["none", "tuple", "tuple", "scalar", "wrong"])
+        k = max(nd - 3, 0)
+        zooms = {"none": None, "tuple": [rng.choice([0.5, 2.0, 3.0]) for _ in range(k)],
+                 "scalar": [rng.choice([2.0, 2.5])], "wrong": [1.0] * (k + 1)}[zmode]
+        return {"kind": "misc", "what": kind, "shape": shape, "A": A.tolist(), "t": t.tolist(), "zmode": zmode,
+                "zooms": zooms, "world": rng.choice(SPACES + ["foo"])}
+    if kind == "iodtype":
+        return {"kind": "misc", "what": kind, "dtype_from": rng.choice(["data", "header", "i2", "f4", "<f8", "uint8",
+                                                                        "np.float32", "np.int16"]),
+                "name": "im" + rng.choice([".nii", ".hdr", ".img", ".nii.gz", ".mnc", ".hdr.gz", ".xyz", ""])}
+    if kind == "defhdr":
+        return {"kind": "misc", "what": kind}
+    if kind == "asimage":
+        return {"kind": "misc", "what": kind, "arg": rng.choice(["image", "path", "int", "none", "array"]),
+                "img": make_image_case(rng, n=rng.choice([3, 4]), design=None)}
+    return {"kind": "misc", "what": "affable", "img": make_image_case(rng, rng.choice([None, None, "space-coupled", "world", "tiny"]),
+                                                                      n=rng.choice([3, 4, 5, 6]))}
 
 
 # ----------------------------------------------------------------------
@@ -415,33 +690,298 @@ def _compare_images(orig, back, spec, ktol, vtol, what, only_xyz=False):
 
 
 # ----------------------------------------------------------------------
+# headers as state
+# ----------------------------------------------------------------------
+GEO_FIELDS = ["dim_info", "dim", "pixdim", "xyzt_units", "toffset", "qform_code", "sform_code", "quatern_b",
+              "quatern_c", "quatern_d", "qoffset_x", "qoffset_y", "qoffset_z", "srow_x", "srow_y", "srow_z"]
+MODELLED_FIELDS = GEO_FIELDS + ["datatype", "bitpix", "scl_slope", "scl_inter", "vox_offset", "magic", "sizeof_hdr"]
+
+
+def _hdr_class(name):
+    import nibabel as nib
+    from nibabel import analyze, nifti1, nifti2, spm2analyze, spm99analyze
+    return {"nifti1": nifti1.Nifti1Header, "pair": nifti1.Nifti1PairHeader, "nifti2": nifti2.Nifti2Header,
+            "spm2": spm2analyze.Spm2AnalyzeHeader, "spm99": spm99analyze.Spm99AnalyzeHeader,
+            "analyze": analyze.AnalyzeHeader}[name]
+
+
+def build_seed_header(sd):
+    import nibabel as nib
+    h = _hdr_class(sd["cls"])()
+    h.set_data_dtype(sd["dtype"] if sd["cls"] in ("nifti1", "pair", "nifti2") or sd["dtype"] in DTYPES else "i2")
+    h.set_data_shape(sd["shape"])
+    nd = len(sd["shape"])
+    if "toffset" in h.keys():
+        aff = np.eye(4); aff[:3, :3] = sd["A"]; aff[:3, 3] = sd["t"]
+        aff2 = np.eye(4); aff2[:3, :3] = sd["A2"]; aff2[:3, 3] = sd["t2"]
+        h.set_sform(aff, sd["sform"])
+        h.set_qform(aff2, sd["qform"])
+        h.set_xyzt_units(None if sd["sunits"] == "unknown" else sd["sunits"],
+                         None if sd["tunits"] == "unknown" else sd["tunits"])
+        h.set_dim_info(*sd["diminfo"])
+        h["toffset"] = sd["toffset"]
+        h["pixdim"][4:8] = sd["pixdim"]
+        if sd["intent"]:
+            h.set_intent(sd["intent"][0], tuple(sd["intent"][1]), name=sd["intent"][2])
+        if sd["slice"]:
+            h["slice_start"], h["slice_end"], h["slice_code"], h["slice_duration"] = sd["slice"]
+        if sd["ext"] and sd["cls"] != "nifti2":
+            h.extensions.append(nib.nifti1.Nifti1Extension("comment", b"kept from before"))
+        if sd["magic_pair"] and sd["cls"] == "nifti1":
+            h["magic"] = h.pair_magic
+    else:
+        h["pixdim"][4:8] = sd["pixdim"]
+        if "origin" in h.keys():
+            h["origin"][:3] = [3, 2, 1]
+    if "scl_slope" in h.keys():
+        h["scl_slope"] = np.nan if sd["slope"] is None else sd["slope"]
+    if "scl_inter" in h.keys():
+        h["scl_inter"] = np.nan if sd["inter"] is None else sd["inter"]
+    h["descrip"] = sd["descrip"].encode()
+    if sd["cal"]:
+        h["cal_max"], h["cal_min"] = sd["cal"]
+    return h
+
+
+def _kept_tokens(hdr):
+    toks = []
+    for k in hdr.keys():
+        if k not in MODELLED_FIELDS:
+            toks.append(f"{k}={np.asarray(hdr[k]).tobytes().hex() or '-'}")
+    ext = getattr(hdr, "extensions", [])
+    toks.append("ext=" + (",".join(f"{e.get_code()}:{bytes(e.get_content()).hex()}" if isinstance(e.get_content(), (bytes, bytearray))
+                                   else f"{e.get_code()}:{e.get_content()!r}".replace(" ", "_") for e in ext) or "-"))
+    return toks
+
+
+def _fnan(x):
+    x = float(x)
+    return "nan" if np.isnan(x) else fr(x)
+
+
+def _dim_tok(v):
+    return "-" if v is None else str(int(v))
+
+
+def _raw_obs(hdr):
+    """all fields of a Nifti1Header, as the model's `Raw`"""
+    su, tu = hdr.get_xyzt_units()
+    return {"shape": [int(x) for x in hdr.get_data_shape()], "pixdim": [float(x) for x in hdr["pixdim"]],
+            "sform": int(hdr["sform_code"]), "qform": int(hdr["qform_code"]),
+            "srow": [float(x) for k in ("srow_x", "srow_y", "srow_z") for x in hdr[k]],
+            "quat": [float(hdr[k]) for k in ("quatern_b", "quatern_c", "quatern_d")],
+            "qoffset": [float(hdr[k]) for k in ("qoffset_x", "qoffset_y", "qoffset_z")],
+            "toffset": float(hdr["toffset"]), "sunits": su, "tunits": tu, "diminfo": list(hdr.get_dim_info()),
+            "dtype": hdr.get_data_dtype().name, "slope": float(hdr["scl_slope"]), "inter": float(hdr["scl_inter"]),
+            "vox": float(hdr["vox_offset"]), "kept": _kept_tokens(hdr)}
+
+
+def _raw_tokens(o):
+    sh = o["shape"]
+    return (f"{len(sh)} {' '.join(map(str, sh))} {frs(o['pixdim'])} {o['sform']} {o['qform']} {frs(o['srow'])} "
+            f"{frs(o['quat'])} {frs(o['qoffset'])} {fr(o['toffset'])} {o['sunits']} {o['tunits']} "
+            f"{' '.join(_dim_tok(v) for v in o['diminfo'])} {o['dtype']} {_fnan(o['slope'])} {_fnan(o['inter'])} "
+            f"{fr(o['vox'])} {len(o['kept'])} {' '.join(o['kept'])}").replace("  ", " ")
+
+
+def _geo_bytes(hdr):
+    """the geometry-bearing fields as stored (srow only when the sform code says it is used)"""
+    out = {}
+    for k in GEO_FIELDS:
+        if k.startswith("srow") and int(hdr["sform_code"]) == 0:
+            continue
+        out[k] = np.asarray(hdr[k])
+    nd = int(hdr["dim"][0])
+    out["pixdim"] = out["pixdim"][:nd + 1]       # entries beyond the dimensions are unused by NIfTI (nibabel resets
+    out["dim"] = out["dim"][:nd + 1]             # them only when the shape changes: modelled, not geometry)
+    return out
+
+
+def _geo_diff(h_with, h_without):
+    a, b = _geo_bytes(h_with), _geo_bytes(h_without)
+    for k in a:
+        if k not in b or not np.array_equal(a[k], b[k], equal_nan=a[k].dtype.kind == "f"):
+            return f"{k}={np.asarray(h_with[k]).tolist()} (without the previous header: {np.asarray(h_without[k]).tolist()})"
+    return None
+
+
+_SITES = None
+SITE_TAGS = ["reorder", "spaceCoupled", "nonspaceCoupled", "world", "unknownAffine", "tooMany", "tooManyNoTime",
+             "timeNoOutput", "tlBothUnmatched", "tlBothMismatch", "tlInMatchesOther", "tlOutMatchesOther", "lt3d"]
+
+
+def _lean_str(s):
+    return '"' + s.replace("\\", "\\\\").replace('"', '\\"').replace("\n", "\\n") + '"'
+
+
+def parse_sources(repo):
+    """the literal tables and the `raise NiftiError` sites of the anchored sources, from their text"""
+    import ast
+    from harness.core import TieBroken
+    out = {}
+    path = os.path.join(repo, "nipy/io/nifti_ref.py")
+    try:
+        tree = ast.parse(open(path).read())
+    except Exception as e:
+        raise TieBroken(f"nifti_ref.py does not parse: {e}")
+    sites = []
+    consts = {}
+    for node in tree.body:
+        if isinstance(node, ast.FunctionDef):
+            for sub in ast.walk(node):
+                if isinstance(sub, ast.Raise) and isinstance(sub.exc, ast.Call) and \
+                        getattr(sub.exc.func, "id", None) == "NiftiError":
+                    arg = sub.exc.args[0] if sub.exc.args else None
+                    if isinstance(arg, ast.Constant):
+                        msg = str(arg.value)
+                    elif isinstance(arg, ast.JoinedStr) and arg.values and isinstance(arg.values[0], ast.Constant):
+                        msg = str(arg.values[0].value)
+                    else:
+                        raise TieBroken(f"nifti_ref.py:{sub.lineno}: NiftiError message is not a literal")
+                    sites.append((node.name, msg, sub.lineno, sub.end_lineno))
+        elif isinstance(node, ast.Assign) and len(node.targets) == 1 and isinstance(node.targets[0], ast.Name):
+            consts[node.targets[0].id] = node.value
+    sites.sort(key=lambda t: t[2])
+    out["sites"] = sites
+    try:
+        out["xform2space"] = [k.value for k in consts["XFORM2SPACE"].keys]
+        tla = ast.literal_eval(consts["TIME_LIKE_AXES"])
+        out["time_like_axes"] = [(k, list(v["aliases"]), v["units"]) for k, v in tla.items()]
+        out["time_like_ordered"] = list(ast.literal_eval(consts["TIME_LIKE_ORDERED"]))
+        units = consts["TIME_LIKE_UNITS"]
+        tlu = []
+        for k, v in zip(units.keys, units.values):
+            dd = dict(zip([kk.value for kk in v.keys], v.values))
+            tlu.append((k.value, dd["name"].value, float(eval(compile(ast.Expression(dd["scaling"]), "<scaling>", "eval")))))
+        out["time_like_units"] = tlu
+        out["tiny"] = float(ast.literal_eval(consts["TINY"]))
+    except TieBroken:
+        raise
+    except Exception as e:
+        raise TieBroken(f"nifti_ref.py: a constant table has an unexpected shape ({type(e).__name__}: {e})")
+    # spaces.py
+    try:
+        tree = ast.parse(open(os.path.join(repo, "nipy/core/reference/spaces.py")).read())
+        cls = next(n for n in tree.body if isinstance(n, ast.ClassDef) and n.name == "XYZSpace")
+        suf = {}
+        for st in cls.body:
+            if isinstance(st, ast.Assign) and isinstance(st.targets[0], ast.Name) and st.targets[0].id.endswith("_suffix"):
+                suf[st.targets[0].id[0]] = st.value.value
+        out["suffixes"] = [suf["x"], suf["y"], suf["z"]]
+        loop = next(n for n in tree.body if isinstance(n, ast.For) and getattr(n.target, "id", "") == "_name")
+        out["spaces"] = list(ast.literal_eval(loop.iter))
+        extras = None
+        for st in ast.walk(loop):
+            if isinstance(st, ast.Call) and getattr(st.func, "attr", "") == "to_coordsys_maker":
+                extras = st.args[0].value
+        vox = next(n for n in tree.body if isinstance(n, ast.Assign) and getattr(n.targets[0], "id", "") == "voxel_csm")
+        out["extras"] = extras
+        out["voxels"] = vox.value.args[0].value
+        for prop in "xyz":
+            fn = next(n for n in cls.body if isinstance(n, ast.FunctionDef) and n.name == prop)
+            ret = next(n for n in ast.walk(fn) if isinstance(n, ast.Return))
+            if ast.unparse(ret.value) != "f'{self.name}-{self.%s_suffix}'" % prop:
+                raise TieBroken(f"XYZSpace.{prop} is no longer name-suffix")
+    except TieBroken:
+        raise
+    except Exception as e:
+        raise TieBroken(f"spaces.py: known-space tables have an unexpected shape ({type(e).__name__}: {e})")
+    # files.py: the extension table of _type_from_filename
+    try:
+        tree = ast.parse(open(os.path.join(repo, "nipy/io/files.py")).read())
+        fn = next(n for n in tree.body if isinstance(n, ast.FunctionDef) and n.name == "_type_from_filename")
+        table = []
+        for st in fn.body:
+            if isinstance(st, ast.If) and isinstance(st.test, ast.Compare) and getattr(st.test.left, "id", "") == "ext" \
+                    and isinstance(st.body[0], ast.Return):
+                cmpv = ast.literal_eval(st.test.comparators[0])
+                for e in (cmpv if isinstance(cmpv, tuple) else (cmpv,)):
+                    table.append((e, st.body[0].value.value))
+        out["filetypes"] = table
+        comp = [ast.unparse(st.test) for st in fn.body if isinstance(st, ast.If) and "endswith" in ast.unparse(st.test)]
+        out["compressed"] = [ast.unparse(t) for st in fn.body if isinstance(st, ast.If) and "endswith" in ast.unparse(st.test)
+                             for t in [st.test] + ([st.orelse[0].test] if st.orelse and isinstance(st.orelse[0], ast.If) else [])]
+    except Exception as e:
+        raise TieBroken(f"files.py: _type_from_filename has an unexpected shape ({type(e).__name__}: {e})")
+    return out
+
+
+def _rat_lit(x):
+    f = frac(x)
+    return f"(({f.numerator} : Rat) / {f.denominator})"
+
+
+def _site_of(exc):
+    """index of the `raise NiftiError` statement an exception came from → site tag"""
+    global _SITES
+    import nipy.io.nifti_ref as nr
+    if _SITES is None:
+        repo = os.path.dirname(os.path.dirname(os.path.dirname(os.path.abspath(nr.__file__))))
+        _SITES = parse_sources(repo)["sites"]
+    tb, line = exc.__traceback__, None
+    while tb is not None:
+        if tb.tb_frame.f_code.co_filename == nr.__file__.replace(".pyc", ".py"):
+            line = tb.tb_lineno
+        tb = tb.tb_next
+    for k, (_, _, lo, hi) in enumerate(_SITES):
+        if line is not None and lo <= line <= hi:
+            return SITE_TAGS[k] if k < len(SITE_TAGS) else f"site{k}"
+    return "unknown-site"
+
+
+def _err_obs(e):
+    n = errname(e)
+    if n == "error:niftiError":
+        n += " " + _site_of(e)
+    return ("err", n, f"{type(e).__name__}: {e}")
+
+
+# ----------------------------------------------------------------------
 class C03(PropertyCheck):
     id = "C03"
     title = "NIfTI save/load round trip preserves data and geometry, or refuses"
-    lean_modules = ["NipyVerif.Props.C03"]
+    lean_modules = ["NipyVerif.Props.C03", "NipyVerif.Props.C03H"]
     driver = "Drivers/C03.lean"
-    rule = ("cases are images (3..8-D, invertible dyadic spatial affine with flips/rotations/shears, any "
+    rule = ("cases are (a) images (3..8-D, invertible dyadic spatial affine with flips/rotations/shears, any "
             "permutation of input axes and output coordinates, five spaces, time-like kind t/hz/ppm/rads or none "
             "named on the input, the output or both, zero/non-zero TR, time offset, positive extra scalings, "
-            "strict on/off, dtype, file formats) from a seeded PRNG, ~25 % malformed (coupled axes, foreign world, "
-            "too many dimensions, contradictory time-like names, ...), plus raw NIfTI headers for nifti2nipy and "
-            "name/affine configurations for _find_time_like; non-trivial = more than 3 dimensions or a non-identity "
-            "permutation or a refusal; distinct by full JSON of the case")
+            "strict on/off, fix0 on/off, dtype, file formats) from a seeded PRNG, ~25 % malformed (coupled axes, foreign "
+            "world, too many dimensions, contradictory time-like names, ...); (b) HISTORIES on one image object: an "
+            "optional seed header of any class (Nifti1 / Nifti1Pair / Nifti2 / Spm2 / Spm99 / Analyze) with every "
+            "geometry field off its default (toffset, xyzt_units, dim_info, pixdim[0:8], sform/qform + codes, scaling, "
+            "intent, slice timing, extension, dtype, extra dims), then 1-4 stages save (memory, .nii, .nii.gz, .hdr, "
+            ".hdr.gz, .img, .img.gz; data_dtype / dtype_from = data / header / explicit) -> load -> edit (time origin "
+            "reset or changed, TR changed, time axis dropped / added / retyped, space renamed, coordmap reset, axes "
+            "added / dropped / resized / renamed / permuted, or a fresh image) -> save ..., each stage also converted "
+            "without its header, half of them saved a second time unchanged; (c) the grid strict x fix0 x 3..7 D x "
+            "time-like kind x position x zero TR x naming side (all 1 616 in thorough, 320 sampled in quick); (d) raw "
+            "NIfTI headers for nifti2nipy, name/affine configurations for _find_time_like; (e) files.py / spaces.py / "
+            "image_spaces.py units (_type_from_filename + save dispatch, io_dtype, get_world_cs, known_space, XYZSpace, "
+            "make_xyz_image, is_xyz_affable / as_xyz_image, as_image, float32 rounding, default header).  Non-trivial = "
+            "more than 3 dimensions or a non-identity permutation or a refusal or a history; distinct by full JSON")
     assumptions = [
         "nibabel.io_orientation (SVD / polar decomposition) is a parameter of the model: the orientations the "
         "implementation computed are passed to the model as a table, theorems quantify over every orientation function",
-        "np.sqrt for column norms is a parameter `sq` with sq(x*x)=x for x>=0 (exact on the dyadic inputs generated; "
-        "pixdim is float32 in the header, zooms are compared to 1e-6 relative)",
-        "nibabel header mechanics (set_sform/set_qform storage in float32, quaternion round-off, get_best_affine, "
-        "file writing, gzip, data scaling to the storage dtype) are exercised by the oracle only",
+        "np.sqrt for column norms is a parameter `sq` with sq(x*x)=x for x>=0 (exact on the dyadic inputs generated)",
+        "the incoming header reaches the model as the fields of nibabel's Nifti1Header.from_header(in_hdr) (nibabel's "
+        "conversion between header classes is not modelled); the quaternion written by set_qform is a parameter "
+        "(`quatOf`): not compared with the model, compared with the quaternion of the header-free conversion",
+        "float32 header storage is the parameter `rnd` (theorems: any function; storage idempotence under "
+        "rnd(rnd x) = rnd x); the driver uses an exact round-to-nearest-even binary32 `rnd32`, itself checked against "
+        "np.float32 (`f32` lines); the 'unknown'-space allclose test is modelled on unrounded zooms (rtol 1e-5 >> 2^-24)",
+        "Nifti1Image.update_header rewrites sform/qform only when the header's best affine is not allclose to the image "
+        "affine; nipy2nifti has just written that affine (codes are compared on every case)",
+        "file writing / gzip / the scaling of data into an integer storage dtype are nibabel's: exercised by the "
+        "oracle only (values to the precision of the storage type)",
         "the quantifier's 'offset on the time axis only' is read as an offset on a 't' axis: offsets on hz/ppm/rads "
         "or plain axes (which nifti_ref documents and tests as not stored) are correspondence-only",
         "couplings below the acceptance thresholds of the code (1e-8 space/non-space, 1e-5 among non-space axes) are "
         "accepted and dropped; the theorems state exact preservation for exactly block-structured affines and "
         "that acceptance implies the couplings are below those thresholds",
     ]
-    level_note = ("in-memory conversion proved on the model; file formats (.nii/.nii.gz/.hdr/.img Analyze) and the "
-                  "nibabel header storage are correspondence + oracle only")
+    level_note = ("in-memory conversion for every incoming header, the affine / pixdim / toffset a NIfTI file keeps (up to "
+                  "the rounding parameter) and the file-type / dtype dispatch of save proved on the model; byte-level "
+                  "file formats, gzip, Analyze origin handling and integer data scaling are correspondence + oracle only")
 
     # ------------------------------------------------------------------
     def generate(self, rng, tier):
@@ -459,6 +999,12 @@ class C03(PropertyCheck):
             cases.append(make_ftl_case(rng))
         for _ in range(n_raw):
             cases.append(make_raw_case(rng))
+        n_hist, n_misc = (1100, 320) if tier == "quick" else (9000, 2500)
+        for _ in range(n_hist):
+            cases.append(make_hist_case(rng, tier))
+        cases.extend(make_grid_cases(rng, tier))
+        for _ in range(n_misc):
+            cases.append(make_misc_case(rng))
         if tier == "thorough":
             # every permutation of input axes and of output coordinates of a 4-D and (sampled) 5-D image
             for n in (4, 5):
@@ -500,16 +1046,48 @@ class C03(PropertyCheck):
 
     # ------------------------------------------------------------------
     def run_case(self, case):
+        import logging
         warnings.filterwarnings("ignore")
+        logging.getLogger("nibabel.global").setLevel(logging.CRITICAL)
         return getattr(self, "_run_" + case["kind"])(case)
 
-    def _mk(self, case):
+    def _mk(self, case, hdr=None):
         from nipy.core.api import AffineTransform, CoordinateSystem, Image
         shape = case["shape"]
         data = np.arange(int(np.prod(shape)), dtype=float).reshape(shape)
         cmap = AffineTransform(CoordinateSystem(case["in"], "voxels"), CoordinateSystem(case["out"], "world"),
                                np.array(case["aff"]))
-        return Image(data, cmap), data
+        return Image(data, cmap, None if hdr is None else {"header": hdr}), data
+
+    # ------------------------------------------------------------------
+    def translators(self):
+        from harness.core import REPO, TieBroken
+        t = parse_sources(os.environ.get("NIPY_VERIF_REPO", REPO))
+        if len(t["sites"]) != len(SITE_TAGS):
+            # still generate the file: the theorem `raise_sites_modelled` then fails to build
+            pass
+        L = ["/- GENERATED by harness/props/C03.py::translators from the text of nipy/io/nifti_ref.py,",
+             "   nipy/core/reference/spaces.py and nipy/io/files.py.  Do not edit. -/",
+             "namespace NipyVerif.C03.Gen", ""]
+        L.append("/-- every `raise NiftiError(...)` of nifti_ref.py in source order: (function, leading literal of the message) -/")
+        L.append("def raiseSites : List (String × String) :=\n  [" +
+                 ",\n   ".join(f"({_lean_str(fn)}, {_lean_str(msg)})" for fn, msg, _, _ in t["sites"]) + "]")
+        L.append("def xform2space : List String := [" + ", ".join(map(_lean_str, t["xform2space"])) + "]")
+        L.append("def timeLikeAxes : List (String × List String × String) := [" + ", ".join(
+            f"({_lean_str(a)}, [{', '.join(map(_lean_str, al))}], {_lean_str(u)})" for a, al, u in t["time_like_axes"]) + "]")
+        L.append("def timeLikeOrdered : List String := [" + ", ".join(map(_lean_str, t["time_like_ordered"])) + "]")
+        L.append("def timeLikeUnits : List (String × String × Rat) := [" + ", ".join(
+            f"({_lean_str(u)}, {_lean_str(nm)}, {_rat_lit(sc)})" for u, nm, sc in t["time_like_units"]) + "]")
+        L.append(f"def tiny : Rat := {_rat_lit(t['tiny'])}")
+        L.append("def spaceNames : List String := [" + ", ".join(map(_lean_str, t["spaces"])) + "]")
+        L.append("def suffixes : List String := [" + ", ".join(map(_lean_str, t["suffixes"])) + "]")
+        L.append(f"def worldExtras : String := {_lean_str(t['extras'])}")
+        L.append(f"def voxelNames : String := {_lean_str(t['voxels'])}")
+        L.append("def fileTypes : List (String × String) := [" + ", ".join(
+            f"({_lean_str(e)}, {_lean_str(ty)})" for e, ty in t["filetypes"]) + "]")
+        L.append("def compressedTests : List String := [" + ", ".join(map(_lean_str, t["compressed"])) + "]")
+        L += ["", "end NipyVerif.C03.Gen", ""]
+        return [("NipyVerif/Gen/C03Tables.lean", "\n".join(L))]
 
     def _run_img(self, c):
         from nipy.io import nifti_ref as nr
@@ -527,7 +1105,7 @@ class C03(PropertyCheck):
                 ni = nr.nipy2nifti(img, data_dtype=c["dtype"], strict=c["strict"], fix0=c["fix0"])
                 out = ("hdr", _hdr_obs(ni), np.asarray(ni.get_fdata()).ravel().tolist())
             except Exception as e:   # NiftiError is a refusal; anything else is observed too
-                ni, out = None, ("err", errname(e), f"{type(e).__name__}: {e}")
+                ni, out = None, _err_obs(e)
         table = rec.table()
         lines.append(f"save {head} {table}")
         impl.append(out)
@@ -542,7 +1120,9 @@ class C03(PropertyCheck):
             tags.append("argsort-tie-not-compared")
             return {"lines": [], "impl": [], "oracle": None, "nontrivial": False, "tags": tags, "mutated": mut}
         if ni is None:
-            tags.append("refused" if out[1] == "error:niftiError" else "raised-" + out[1])
+            tags.append("refused" if out[1].startswith("error:niftiError") else "raised-" + out[1])
+            if out[1].startswith("error:niftiError"):
+                tags.append("site=" + out[1].split()[-1])
             if spec["expect"] in ("ok", "ok-approx"):
                 fail = (f"nipy2nifti raised {out[2]} for an image whose geometry NIfTI can express "
                         f"(in={c['in']} out={c['out']} shape={c['shape']})")
@@ -559,7 +1139,7 @@ class C03(PropertyCheck):
         except Exception as e:
             back = None
             lines.append(_load_line(out[1]))
-            impl.append(("err", errname(e), str(e)))
+            impl.append(_err_obs(e))
             fail = fail or f"nifti2nipy raised {type(e).__name__}: {e} on the image nipy2nifti produced"
         if fail is None and back is not None and spec["expect"] in ("ok", "ok-approx"):
             ktol = 1e-9 if spec["expect"] == "ok" and spec["space"] != "unknown" else 1e-4
@@ -616,6 +1196,381 @@ class C03(PropertyCheck):
         finally:
             shutil.rmtree(tmp, ignore_errors=True)
 
+    # ------------------------------------------------------------------
+    def _saveh_line(self, st, table, dd, has_hdr, start_obs):
+        head = f"{int(st['strict'])} {int(st['fix0'])} {_img_tokens(st['in'], st['out'], st['aff'], st['shape'])}"
+        return (f"saveh {head} {table} {'-' if dd is None else np.dtype(dd).name} {int(has_hdr)} float64 "
+                f"{_raw_tokens(start_obs)}")
+
+    def _run_hist(self, c):
+        import nibabel as nib
+        from nipy.io import nifti_ref as nr
+        from nipy.io.api import as_image, load_image, save_image
+        lines, impl, tags, fail, mut, leak = [], [], ["hist", f"hist-stages={len(c['stages'])}"], None, None, None
+        hdr = build_seed_header(c["seed"]) if c["seed"] else None
+        if c["seed"]:
+            tags.append("seed-" + c["seed"]["cls"])
+        tmp = None
+        try:
+            for si, st in enumerate(c["stages"]):
+                spec = st["spec"]
+                img, data = self._mk(st, hdr)
+                tags += [f"stage-via={st['via']}", "edit=" + st["edit"], "carried-header" if hdr is not None else "no-header"]
+                hdr_before = None if hdr is None else (hdr.binaryblock, [bytes(e.get_content()) if isinstance(e.get_content(), (bytes, bytearray)) else repr(e.get_content()) for e in getattr(hdr, "extensions", [])])
+                start = nib.Nifti1Header.from_header(hdr)
+                start_obs = _raw_obs(start)
+                with _Recorder() as rec:
+                    try:
+                        ni = nr.nipy2nifti(img, data_dtype=st["dd"], strict=st["strict"], fix0=st["fix0"])
+                        out = ("rawhdr", _raw_obs(ni.header), np.asarray(ni.affine).ravel().tolist(),
+                               np.asarray(ni.get_fdata()).ravel().tolist(), st, "mem")
+                    except Exception as e:
+                        ni, out = None, _err_obs(e)
+                if any(v.split().count("-") >= 2 for v in rec.calls.values()):
+                    tags.append("argsort-tie-not-compared")
+                    break
+                if ni is not None and any(float(v) != 1.0 for v in ni.header["pixdim"][len(ni.shape) + 1:]):
+                    tags.append("stale-unused-pixdim-tail")
+                line = self._saveh_line(st, rec.table(), st["dd"], hdr is not None, start_obs)
+                lines.append(line); impl.append(out)
+                if hdr is not None and hdr_before != (hdr.binaryblock, [bytes(e.get_content()) if isinstance(e.get_content(), (bytes, bytearray)) else repr(e.get_content()) for e in getattr(hdr, "extensions", [])]):
+                    mut = "nipy2nifti:metadata-header"
+                # --- the same image without its previous header: geometry must not depend on it
+                if hdr is not None:
+                    img0, _ = self._mk(st, None)
+                    try:
+                        ni0 = nr.nipy2nifti(img0, data_dtype=st["dd"], strict=st["strict"], fix0=st["fix0"])
+                        e0 = None
+                    except Exception as e:
+                        ni0, e0 = None, _err_obs(e)[1]
+                    if (ni is None) != (ni0 is None) or (ni is None and out[1] != e0):
+                        fail = fail or (f"stage {si}: whether nipy2nifti accepts the image depends on the header it carries "
+                                        f"({'written' if ni is not None else out[1]} with, {'written' if ni0 is not None else e0} without)")
+                    elif ni is not None:
+                        d = _geo_diff(ni.header, ni0.header)
+                        if d is None and not np.array_equal(ni.affine, ni0.affine):
+                            d = "affine differs"
+                        if d:
+                            leak = leak or (f"stage {si} ({st['edit']}, {st['via']}): nipy2nifti wrote header field {d}: state of the "
+                                            f"header carried from the previous load leaks into the saved geometry "
+                                            f"(in={st['in']} out={st['out']})")
+                if ni is None:
+                    tags.append("refused" if out[1].startswith("error:niftiError") else "raised-" + out[1])
+                    if spec["expect"] in ("ok", "ok-approx"):
+                        fail = fail or (f"stage {si}: nipy2nifti raised {out[2]} for an image whose geometry NIfTI can express "
+                                        f"(in={st['in']} out={st['out']} shape={st['shape']})")
+                    break
+                if spec["expect"] == "refuse":
+                    fail = fail or (f"stage {si}: nipy2nifti wrote an image whose geometry NIfTI cannot express ({st['malformed']}: "
+                                    f"in={st['in']} out={st['out']}) instead of raising NiftiError")
+                # --- back again
+                via = st["via"]
+                what = f"stage {si} ({st['edit']}) " + ("in-memory round trip" if via == "mem" else f"round trip through {via} ({st['eff_dtype']})")
+                try:
+                    if via == "mem":
+                        ni2, back = ni, nr.nifti2nipy(ni)
+                    else:
+                        tmp = tmp or tempfile.mkdtemp(prefix="c03h-")
+                        pth = os.path.join(tmp, f"s{si}" + via)
+                        ret = save_image(img, pth, dtype_from=st["dtype_from"])
+                        if ret is not img:
+                            fail = fail or f"{what}: save_image did not return its input image"
+                        back = as_image(pth) if si % 2 else load_image(pth)
+                        nimg = nib.load(pth)
+                        ni2 = nib.Nifti1Image(nimg.dataobj, nimg.affine, nimg.header)
+                        _ = back.get_fdata()
+                except Exception as e:
+                    fail = fail or f"{what} raised {type(e).__name__}: " + str(e).replace(tmp or "<none>", "<tmp>")
+                    break
+                o2 = _hdr_obs(ni2)
+                lines.append(_load_line(o2))
+                impl.append(("img", _img_obs(back), np.asarray(back.get_fdata()).ravel().tolist() if via == "mem" else None))
+                if via in (".nii", ".nii.gz", ".hdr", ".hdr.gz"):
+                    # the header read back from the file is the header nipy2nifti produced; the affine is its best affine
+                    lines.append(line)
+                    impl.append(("rawhdr", _raw_obs(ni2.header), None, None, st, "file"))
+                    lines.append("best " + _raw_tokens(_raw_obs(ni2.header)))
+                    impl.append(("best", np.asarray(ni2.affine).ravel().tolist()))
+                if fail is None and spec["expect"] in ("ok", "ok-approx"):
+                    if via == "mem":
+                        ktol = 1e-9 if spec["expect"] == "ok" and spec["space"] != "unknown" else 1e-4
+                        vtol = 0.0
+                    else:
+                        ktol = 1e-5
+                        rng_ = float(data.max() - data.min()) if data.size else 0.0
+                        dt = np.dtype(st["eff_dtype"])
+                        vtol = 1e-6 * max(1.0, rng_) if dt.kind == "f" else max(rng_ / (2.0 ** (8 * dt.itemsize) - 2), 0) + 1e-6
+                    analyze = via in (".img", ".img.gz")
+                    fail = _compare_images(img, back, spec, ktol, vtol, what, only_xyz=analyze)
+                    if fail is None and via != "mem":
+                        from nipy.io.nibcompat import get_unscaled_data
+                        raw_ = np.asarray(get_unscaled_data(nimg), dtype=float)
+                        sl, it = getattr(nimg.dataobj, "slope", None), getattr(nimg.dataobj, "inter", None)
+                        if not np.allclose(raw_ * (1.0 if sl is None else sl) + (0.0 if it is None else it),
+                                           np.asarray(nimg.get_fdata()), rtol=1e-6, atol=1e-6):
+                            fail = f"{what}: get_unscaled_data with the header's slope / intercept is not the data"
+                    if not analyze:
+                        from nipy.core.reference.spaces import known_space
+                        ks = known_space(back)
+                        if fail is None and not spec["plain_xyz"] and (ks is None or ks.name != spec["space"]):
+                            fail = f"{what}: known_space of the loaded image is {ks!r}, saved in '{spec['space']}'"
+                        names = list(back.coordmap.function_range.coord_names)
+                        if fail is None and not spec["plain_xyz"] and names[:3] != space_names(spec["space"]):
+                            fail = f"{what}: space {space_names(spec['space'])} became {names[:3]}"
+                        if fail is None and spec["tl"] and names[3] != spec["tl"]:
+                            fail = f"{what}: time-like axis '{spec['tl']}' became '{names[3]}'"
+                        if fail is None and not spec["tl"] and len(st["shape"]) > 3 and names[3] in ("t", "hz", "ppm", "rads"):
+                            fail = f"{what}: an image without time-like axis got axis '{names[3]}'"
+                if fail is None and leak is None and st.get("resave") and spec["expect"] == "ok":
+                    fail = self._resave(back, via, tmp, si, what, tags)
+                if fail or leak:
+                    break
+                hdr = back.metadata.get("header")
+        finally:
+            if tmp:
+                shutil.rmtree(tmp, ignore_errors=True)
+        if fail and leak:
+            fail = fail + " — " + leak
+        fail = fail or leak
+        return {"lines": lines, "impl": impl, "oracle": fail, "nontrivial": True, "tags": tags, "mutated": mut}
+
+    def _resave(self, back, via, tmp, si, what, tags):
+        """second round trip of the loaded image itself (same path, its own header): must be exact"""
+        from nipy.io import nifti_ref as nr
+        from nipy.io.api import load_image, save_image
+        tags.append("resave-" + ("mem" if via == "mem" else "file"))
+        try:
+            if via == "mem":
+                ni = nr.nipy2nifti(back, strict=True)
+                again = nr.nifti2nipy(ni)
+            else:
+                pth = os.path.join(tmp, f"r{si}" + via)
+                save_image(back, pth, dtype_from="header")
+                again = load_image(pth)
+        except Exception as e:
+            return f"{what}: saving the loaded image again raised {type(e).__name__}: " + str(e).replace(tmp or "<none>", "<tmp>")
+        a, b = back.coordmap, again.coordmap
+        if a.function_domain.coord_names != b.function_domain.coord_names or \
+                a.function_range.coord_names != b.function_range.coord_names:
+            return f"{what}: second round trip changed the axis names {a.function_domain.coord_names}->{a.function_range.coord_names} to {b.function_domain.coord_names}->{b.function_range.coord_names}"
+        if not np.array_equal(np.asarray(a.affine), np.asarray(b.affine)):
+            return (f"{what}: second round trip is not exact: affine {np.asarray(a.affine).tolist()} became "
+                    f"{np.asarray(b.affine).tolist()}")
+        d = _geo_diff(again.metadata["header"], back.metadata["header"])
+        if d:
+            return f"{what}: second round trip changed header field {d}"
+        if via == "mem" and not np.array_equal(np.asarray(back.get_fdata()), np.asarray(again.get_fdata())):
+            return f"{what}: second round trip changed the data"
+        return None
+
+    def _run_misc(self, c):
+        import nibabel as nib
+        from nipy.core.api import CoordinateSystem
+        from nipy.core.image import image_spaces as isp
+        from nipy.core.reference import spaces as sp
+        from nipy.io import files
+        w = c["what"]
+        tags = ["misc", "misc-" + w]
+        fail = None
+
+        def ename(e):
+            return "error:" + type(e).__name__ if type(e).__name__ in ("SpaceError", "CoordSysMakerError") else errname(e)
+        if w == "ftype":
+            name = c["name"]
+            try:
+                t = files._type_from_filename(name)
+                act = self._save_action(files, name, "data")[0]
+                out = f"ok {t} {act}"
+            except Exception as e:
+                out = errname(e)
+            return {"lines": [f"ftype {name or '<>'}"], "impl": [("txt", out)], "oracle": None, "nontrivial": True,
+                    "tags": tags + ["ftype-" + out.split()[-1]], "mutated": None}
+        if w == "iodtype":
+            df = {"np.float32": np.float32, "np.int16": np.int16}.get(c["dtype_from"], c["dtype_from"])
+            try:
+                act, dd = self._save_action(files, c["name"], df)
+            except Exception as e:
+                return {"lines": [], "impl": [], "oracle": None, "nontrivial": False, "tags": tags + ["iodtype-" + errname(e)],
+                        "mutated": None}
+            tok = c["dtype_from"] if c["dtype_from"] in ("data", "header") else np.dtype(df).name
+            out = "ok " + ("-" if dd is None else np.dtype(dd).name)
+            return {"lines": [f"iodtype {tok} float64"], "impl": [("txt", out)], "oracle": None, "nontrivial": True,
+                    "tags": tags, "mutated": None}
+        if w == "f32":
+            vals = [float(v) for v in c["vals"]]
+            with np.errstate(all="ignore"):
+                got = [float(np.float32(v)) for v in vals]
+            keep = [(v, g) for v, g in zip(vals, got) if np.isfinite(g)]
+            return {"lines": [f"f32 {len(keep)} {frs([v for v, _ in keep])}"],
+                    "impl": [("txt", "ok " + frs([g for _, g in keep]))], "oracle": None, "nontrivial": True,
+                    "tags": tags, "mutated": None}
+        if w == "worldcs":
+            try:
+                cs = sp.get_world_cs(c["world"] or "", c["ndim"])
+                out = "ok " + " ".join(cs.coord_names)
+            except Exception as e:
+                out = ename(e)
+            if c["ndim"] == 0 or not c["world"]:
+                return {"lines": [], "impl": [], "oracle": None, "nontrivial": False, "tags": tags, "mutated": None}
+            return {"lines": [f"worldcs {c['world']} {c['ndim']}"], "impl": [("txt", out.rstrip())], "oracle": None,
+                    "nontrivial": True, "tags": tags + ["worldcs-" + out.split()[0]], "mutated": None}
+        if w == "knownspace":
+            r = sp.known_space(CoordinateSystem(c["names"]))
+            out = "ok " + ("-" if r is None else r.name)
+            return {"lines": [f"knownspace {len(c['names'])} {' '.join(c['names'])}"], "impl": [("txt", out)],
+                    "oracle": None, "nontrivial": True, "tags": tags, "mutated": None}
+        if w == "xyzspace":
+            A, B = sp.XYZSpace(c["a"]), sp.XYZSpace(c["b"])
+            want = tuple(space_names(c["a"]))
+            mp = {}
+            A.register_to(mp)
+            checks = [(A.as_tuple() == want, "as_tuple"), ((A.x, A.y, A.z) == want, "x/y/z"),
+                      (A.as_map() == dict(zip("xyz", want)), "as_map"), (mp == dict(zip(want, "xyz")), "register_to"),
+                      ((A == B) == (c["a"] == c["b"]) and (A != B) == (c["a"] != c["b"]), "__eq__/__ne__"),
+                      (A != "x" and not (A == 3), "__eq__ with a non-space"),
+                      (repr(A) == f"XYZSpace('{c['a']}')" and str(A).startswith(c["a"] + ": "), "repr/str"),
+                      (sp.is_xyz_space(A) and not sp.is_xyz_space(CoordinateSystem("xyz")), "is_xyz_space"),
+                      (CoordinateSystem(list(want) + ["t"]) in A and (CoordinateSystem(space_names(c["b"])) in A) == (c["a"] == c["b"]),
+                       "__contains__")]
+            n_ex = c["ndim"] - 3
+            if n_ex <= len(c["extras"]):
+                cs = A.to_coordsys_maker(c["extras"])(c["ndim"])
+                checks.append((cs.coord_names == want + tuple(c["extras"][:n_ex]) and cs.name == c["a"], "to_coordsys_maker"))
+                checks.append((sp.get_world_cs(A, c["ndim"], c["extras"]).coord_names == cs.coord_names and
+                               sp.get_world_cs(cs, c["ndim"]) is cs and
+                               sp.get_world_cs(A.to_coordsys_maker(c["extras"]), c["ndim"]).coord_names == cs.coord_names,
+                               "get_world_cs(space / coordsys / maker)"))
+                try:
+                    sp.get_world_cs(cs, c["ndim"] + 1)
+                    checks.append((False, "get_world_cs(coordsys of the wrong dimension) did not raise"))
+                except sp.SpaceError:
+                    pass
+            try:
+                sp.get_world_cs(3, 3)
+                checks.append((False, "get_world_cs(3) did not raise"))
+            except ValueError:
+                pass
+            bad = [nm for ok, nm in checks if not ok]
+            line = f"knownspace 3 {' '.join(want)}"
+            r = sp.known_space(CoordinateSystem(want))
+            out = "ok " + ("-" if r is None else r.name)
+            return {"lines": [line], "impl": [("txt", out)], "oracle": ("XYZSpace: " + ", ".join(bad)) if bad else None,
+                    "nontrivial": True, "tags": tags, "mutated": None}
+        if w == "defhdr":
+            h = nib.Nifti1Header.from_header(None)
+            o = _raw_obs(h)
+            return {"lines": [f"defhdr {len(o['kept'])} {' '.join(o['kept'])}"], "impl": [("rawhdr", o, None, None, None, "def")],
+                    "oracle": None, "nontrivial": True, "tags": tags, "mutated": None}
+        if w == "mkxyz":
+            shape = c["shape"]
+            data = np.zeros(shape)
+            aff = np.eye(4); aff[:3, :3] = c["A"]; aff[:3, 3] = c["t"]
+            z = c["zooms"]
+            arg = aff if z is None else (aff, (z[0] if c["zmode"] == "scalar" else tuple(z)))
+            try:
+                im = isp.make_xyz_image(data, arg, c["world"])
+                out = ("img", _img_obs(im), None)
+            except Exception as e:
+                out = ("err", ename(e), str(e))
+            zl = [] if z is None else z
+            if c["zmode"] == "scalar" and len(shape) != 4:
+                zl = z          # a scalar is one zoom: wrong count unless there is exactly one extra axis
+            line = (f"mkxyz {len(shape)} {' '.join(map(str, shape))} {frs(aff.ravel().tolist())} {int(z is not None)} "
+                    f"{len(zl)} {frs(zl)} {c['world']}").replace("  ", " ")
+            return {"lines": [line], "impl": [out], "oracle": None, "nontrivial": True,
+                    "tags": tags + ["mkxyz-" + (out[1] if out[0] == "err" else "ok")], "mutated": None}
+        if w == "asimage":
+            from nipy.io.api import as_image, save_image
+            img, _ = self._mk(c["img"])
+            arg = c["arg"]
+            tmp = tempfile.mkdtemp(prefix="c03a-")
+            try:
+                if arg == "image":
+                    ok = as_image(img) is img
+                    fail = None if ok else "as_image(img) did not pass the image through"
+                elif arg == "path":
+                    pth = os.path.join(tmp, "a.nii")
+                    if c["img"]["spec"]["expect"] == "ok":
+                        save_image(img, pth)
+                        back = as_image(pth)
+                        fail = _compare_images(img, back, c["img"]["spec"], 1e-5, 1e-6 * max(1, img.get_fdata().size), "as_image(path)")
+                else:
+                    bad = {"int": 3, "none": None, "array": np.zeros((2, 2, 2))}[arg]
+                    try:
+                        as_image(bad)
+                        fail = f"as_image({arg}) returned instead of raising TypeError"
+                    except TypeError:
+                        pass
+            finally:
+                shutil.rmtree(tmp, ignore_errors=True)
+            return {"lines": [], "impl": [], "oracle": fail, "nontrivial": True, "tags": tags + ["asimage-" + arg], "mutated": None}
+        # affable: is_xyz_affable / as_xyz_image (image_spaces.py) and the coordmap-level twins (spaces.py)
+        ic = c["img"]
+        img, _ = self._mk(ic)
+        known = dict(sp.known_names)
+        if not ic["strict"]:
+            for ch in "xyz":
+                known[ch] = ch
+        with _Recorder() as rec:
+            a = bool(isp.is_xyz_affable(img, known))
+            a2 = bool(sp.is_xyz_affable(img.coordmap, known))
+            try:
+                x = isp.as_xyz_image(img, known)
+                reo = "reo " + " ".join(x.coordmap.function_domain.coord_names) + " | " + " ".join(x.coordmap.function_range.coord_names)
+                if a and x is not img:
+                    fail = "as_xyz_image returned a new image although the image already has an xyz affine"
+                if not isp.is_xyz_affable(x, known):
+                    fail = "as_xyz_image returned an image without xyz affine"
+                elif not np.array_equal(isp.xyz_affine(x, known), sp.xyz_affine(x.coordmap, known)):
+                    fail = "image_spaces.xyz_affine and spaces.xyz_affine disagree"
+            except (sp.AxesError, sp.AffineError):
+                reo = "reo-error"
+        if a != a2:
+            fail = "image_spaces.is_xyz_affable and spaces.is_xyz_affable disagree"
+        nimg = nib.Nifti1Image(np.zeros((2, 2, 2)), np.diag([2.0, 3.0, 4.0, 1.0]))
+        if not isp.is_xyz_affable(nimg) or not np.array_equal(isp.xyz_affine(nimg), nimg.affine) or isp.as_xyz_image is None:
+            fail = fail or "a nibabel image is not xyz-affable"
+        if any(v.split().count("-") >= 2 for v in rec.calls.values()):
+            return {"lines": [], "impl": [], "oracle": fail, "nontrivial": False, "tags": tags + ["argsort-tie-not-compared"], "mutated": None}
+        line = f"affable {int(ic['strict'])} {_img_tokens(ic['in'], ic['out'], ic['aff'], ic['shape'])} {rec.table()}"
+        return {"lines": [line], "impl": [("txt", f"ok {str(a).lower()} {reo}")], "oracle": fail, "nontrivial": True,
+                "tags": tags + ["affable-" + str(a).lower()], "mutated": None}
+
+    @staticmethod
+    def _save_action(files, name, dtype_from):
+        """run the real `save` with the conversions and writers replaced by recorders"""
+        import nibabel as nib
+        rec = {}
+
+        class Dummy:
+            def __init__(self, kind):
+                self.kind = kind
+
+            def to_filename(self, fn):
+                rec["act"] = self.kind
+
+            def get_data_dtype(self):
+                return np.dtype("f8")
+
+        class Img:
+            def get_fdata(self):
+                return np.zeros((1, 1, 1))
+        from unittest import mock
+
+        def fake_n2n(img, data_dtype=None, **kw):
+            rec["dd"] = data_dtype
+            return Dummy("single")
+        with mock.patch.object(files, "nipy2nifti", fake_n2n), \
+                mock.patch.object(nib.Nifti1Pair, "from_image", classmethod(lambda k, im: Dummy("pair"))), \
+                mock.patch.object(nib.Spm2AnalyzeImage, "from_image", classmethod(lambda k, im: Dummy("analyze"))):
+            try:
+                files.save(Img(), name, dtype_from)
+            except ValueError:
+                rec.setdefault("act", "error:valueError")
+                if "dd" not in rec:
+                    raise
+        return rec["act"], rec.get("dd")
+
     def _run_ftl(self, c):
         from nipy.io import nifti_ref as nr
         img, _ = self._mk(c)
@@ -625,7 +1580,7 @@ class C03(PropertyCheck):
                 out = ("tl", "ok none" if r[0] is None else
                        f"ok {int(r[0])} {'-' if r[1] is None else int(r[1])} {r[2]}")
             except Exception as e:
-                out = ("tl", errname(e))
+                out = ("tl", _err_obs(e)[1])
         line = f"ftl {int(c['fix0'])} {_img_tokens(c['in'], c['out'], c['aff'], c['shape'])} {rec.table()}"
         fail = None
         if out[1].startswith("ok ") and out[1] != "ok none":
@@ -638,7 +1593,8 @@ class C03(PropertyCheck):
             if names != {nm}:
                 fail = f"_find_time_like returned {out[1]} for in={c['in']} out={c['out']}: axis types {names}"
         return {"lines": [line], "impl": [out], "oracle": fail, "nontrivial": True,
-                "tags": ["ftl", "ftl-" + out[1].split()[0].replace("error:", "")], "mutated": None}
+                "tags": ["ftl", "ftl-" + out[1].split()[0].replace("error:", "")] +
+                        (["site=" + out[1].split()[-1]] if out[1].startswith("error:niftiError") else []), "mutated": None}
 
     def _run_raw(self, c):
         import nibabel as nib
@@ -664,13 +1620,13 @@ class C03(PropertyCheck):
             back = nr.nifti2nipy(ni)
             out = ("img", _img_obs(back), np.asarray(back.get_fdata()).ravel().tolist())
         except Exception as e:
-            out = ("err", errname(e), str(e))
+            out = _err_obs(e)
         fail = None
         if len(shape) >= 3 and out[0] == "err":
             fail = f"nifti2nipy raised {out[2]} on a {len(shape)}-D NIfTI image"
         return {"lines": [_load_line(o)], "impl": [out], "oracle": fail, "nontrivial": len(shape) >= 3,
-                "tags": ["raw", f"raw-ndim={len(shape)}", "raw-" + out[0]], "mutated": None,
-                }
+                "tags": ["raw", f"raw-ndim={len(shape)}", "raw-" + out[0]] +
+                        (["site=lt3d"] if out[0] == "err" and out[1].endswith("lt3d") else []), "mutated": None}
 
     # ------------------------------------------------------------------
     @staticmethod
@@ -688,6 +1644,19 @@ class C03(PropertyCheck):
         kind = impl_obs[0]
         if kind == "tl":
             return None if impl_obs[1] == model_out else f"impl={impl_obs[1]!r} model={model_out!r}"
+        if kind == "txt":
+            return None if impl_obs[1] == model_out else f"impl={impl_obs[1]!r} model={model_out!r}"
+        if kind == "best":
+            if model_out == "qform":
+                return None
+            if not model_out.startswith("ok "):
+                return f"impl returned an affine, model says {model_out[:80]}"
+            ma = parse_rats(model_out[3:])
+            if len(ma) != 16 or any(not close(a, b, 1e-12, 1e-12) for a, b in zip(impl_obs[1], ma)):
+                return f"affine read from the file impl={impl_obs[1]} model (best affine of the header)={[float(x) for x in ma]}"
+            return None
+        if kind == "rawhdr":
+            return self._compare_raw(impl_obs, model_out)
         if kind == "err":
             return None if impl_obs[1] == model_out else f"impl raised {impl_obs[2][:120]!r} model={model_out[:120]!r}"
         if not model_out.startswith("ok "):
@@ -726,6 +1695,8 @@ class C03(PropertyCheck):
             return None
         if kind == "img":
             o, flat = impl_obs[1], impl_obs[2]
+            if o.get("shape") is None:
+                return "no image"
             m = self._sections(model_out, ["in", "out", "aff", "shape", "axes"])
             if m["in"] != o["in"] or m["out"] != o["out"]:
                 return f"names impl={o['in']}->{o['out']} model={m['in']}->{m['out']}"
@@ -737,8 +1708,66 @@ class C03(PropertyCheck):
             return None
         return "unknown observation kind"
 
+    def _compare_raw(self, impl_obs, model_out):
+        _, o, aff, flat, st, where = impl_obs
+        if not model_out.startswith("ok "):
+            return f"impl returned a header, model says {model_out[:80]}"
+        m = self._sections(model_out, ["shape", "pixdim", "codes", "srow", "qoffset", "toffset", "units", "diminfo",
+                                       "dtype", "scl", "vox", "kept", "axes", "aff"])
+        if [int(x) for x in m["shape"]] != o["shape"]:
+            return f"[{where}] shape impl={o['shape']} model={m['shape']}"
+        mp = parse_rats(" ".join(m["pixdim"]))
+        used = len(o["shape"]) + 1 if where == "file" else 8    # header conversions on the way to a file reset the unused tail
+        if len(mp) != 8 or any(not close(a, b, 1e-6, 1e-9) for a, b in list(zip(o["pixdim"], mp))[:used]):
+            return f"[{where}] pixdim[0:8] impl={o['pixdim']} model={[float(x) for x in mp]}"
+        if [int(x) for x in m["codes"]] != [o["sform"], o["qform"]]:
+            return f"[{where}] codes impl={[o['sform'], o['qform']]} model={m['codes']}"
+        ms = parse_rats(" ".join(m["srow"]))
+        if len(ms) != 12 or any(not close(a, b, 1e-9, 1e-12) for a, b in zip(o["srow"], ms)):
+            return f"[{where}] srow impl={o['srow']} model={[float(x) for x in ms]}"
+        mq = parse_rats(" ".join(m["qoffset"]))
+        if any(not close(a, b, 1e-9, 1e-12) for a, b in zip(o["qoffset"], mq)):
+            return f"[{where}] qoffset impl={o['qoffset']} model={[float(x) for x in mq]}"
+        if not close(o["toffset"], parse_rats(m["toffset"][0])[0], 1e-9, 1e-12):
+            return f"[{where}] toffset impl={o['toffset']} model={m['toffset']}"
+        if m["units"] != [o["sunits"], o["tunits"]]:
+            return f"[{where}] units impl={[o['sunits'], o['tunits']]} model={m['units']}"
+        if m["diminfo"] != [_dim_tok(v) for v in o["diminfo"]]:
+            return f"[{where}] dim_info impl={o['diminfo']} model={m['diminfo']}"
+        if m["dtype"] != [o["dtype"]]:
+            return f"[{where}] dtype impl={o['dtype']} model={m['dtype']}"
+        if where == "file":
+            return None
+        if m["scl"] != [_fnan(o["slope"]), _fnan(o["inter"])] or not close(o["vox"], parse_rats(m["vox"][0])[0]):
+            return f"[{where}] scl_slope/scl_inter/vox_offset impl={o['slope']},{o['inter']},{o['vox']} model={m['scl']},{m['vox']}"
+        if m["kept"] != o["kept"]:
+            d = [(a, b) for a, b in zip(o["kept"], m["kept"]) if a != b][:3]
+            return f"[{where}] fields nipy does not set are not carried over from the incoming header: {d}"
+        if where == "def":
+            return None
+        ma = parse_rats(" ".join(m["aff"]))
+        if len(ma) != 16 or any(not close(a, b, 1e-12, 1e-12) for a, b in zip(aff, ma)):
+            return f"affine impl={aff} model={[float(x) for x in ma]}"
+        src = np.arange(int(np.prod(st["shape"])), dtype=float).reshape(st["shape"])
+        axes = [None if a == "-" else int(a) for a in m["axes"]]
+        real = [a for a in axes if a is not None]
+        if sorted(real) != list(range(src.ndim)):
+            return f"model axes {axes} are not a permutation"
+        exp = np.transpose(src, real)
+        for k, a in enumerate(axes):
+            if a is None:
+                exp = np.expand_dims(exp, k)
+        if list(exp.shape) != o["shape"] or exp.ravel().tolist() != flat:
+            return f"data: implementation's array is not the transposition {axes} of the input"
+        return None
+
     # ------------------------------------------------------------------
     def shrink(self, case):
+        if case["kind"] == "hist":
+            yield from self._shrink_hist(case)
+            return
+        if case["kind"] == "misc":
+            return
         if case.get("formats"):
             for f in case["formats"]:
                 c = dict(case); c["formats"] = [f]
@@ -751,6 +1780,42 @@ class C03(PropertyCheck):
                     if case["kind"] == "img" and case["spec"]["space"] == "unknown":
                         continue       # the base affine depends on the shape
                     yield c
+
+    @staticmethod
+    def _rechain(case):
+        cur = case["seed"]["dtype"] if case["seed"] else None
+        for st in case["stages"]:
+            st["eff_dtype"] = _effective_dtype(st["dd"], cur)
+            cur = st["eff_dtype"]
+        return case
+
+    def _shrink_hist(self, case):
+        import copy
+        st = case["stages"]
+        if len(st) > 1:
+            c = copy.deepcopy(case); c["stages"] = c["stages"][:-1]; yield self._rechain(c)
+            c = copy.deepcopy(case); c["stages"] = c["stages"][1:]; yield self._rechain(c)
+            for i in range(1, len(st) - 1):
+                c = copy.deepcopy(case); c["stages"].pop(i); yield self._rechain(c)
+        if case["seed"] is not None:
+            c = copy.deepcopy(case); c["seed"] = None; yield self._rechain(c)
+            for key, val in (("cls", "nifti1"), ("ext", False), ("intent", None), ("slice", None), ("cal", None),
+                             ("slope", None), ("inter", None), ("descrip", ""), ("diminfo", [None, None, None]),
+                             ("sunits", "mm"), ("tunits", "unknown"), ("sform", 0), ("qform", 0),
+                             ("pixdim", [1.0, 1.0, 1.0, 1.0]), ("magic_pair", False), ("shape", [1, 1, 1])):
+                if case["seed"][key] != val:
+                    c = copy.deepcopy(case); c["seed"][key] = val; yield self._rechain(c)
+        for i, s_ in enumerate(st):
+            if s_["via"] != "mem":
+                c = copy.deepcopy(case)
+                c["stages"][i].update(via="mem", dd=s_["eff_dtype"], dtype_from=None)
+                yield self._rechain(c)
+            if s_["spec"]["space"] != "unknown":
+                for ax, n_ in enumerate(s_["shape"]):
+                    if n_ > 1:
+                        c = copy.deepcopy(case)
+                        c["stages"][i]["shape"][ax] = n_ - 1
+                        yield c
 
     def classify(self, case, failure):
         return None
